@@ -822,6 +822,17 @@ func (ft *FT) contractCall(st *State, guard Term, con *FuncContract, name string
 		}
 		ft.oblige("pre@call", pos, fmt.Sprintf("%s: %s", name, r.Text), guard, t, true)
 	}
+	// direct recursion: the declared variant strictly decreases at every self call and stays non-negative
+	if callee != nil && callee == ft.fn && con.RecDecreases != nil {
+		ectx := ft.specCtx(ft.entry, ft.entry)
+		here, err1 := ctx.expr(con.RecDecreases.Expr)
+		entry, err2 := ectx.expr(con.RecDecreases.Expr)
+		if err1 != nil || err2 != nil {
+			ft.errf("recdecreases %q: %v %v", con.RecDecreases.Text, err1, err2)
+		} else {
+			ft.oblige("decreases@call", pos, fmt.Sprintf("%s: %s", name, con.RecDecreases.Text), guard, and(app("<=", "0", here.T), app("<", here.T, entry.T)), true)
+		}
+	}
 	// frame
 	if !con.HasMod {
 		var ks map[string]bool
@@ -1244,7 +1255,19 @@ func (ft *FT) appendOp(st *State, guard Term, c *ssa.CallCommon, args []Term, po
 	ft.asserts = append(ft.asserts, "(assert "+eq(nE, ite(fits, inplace, realloc))+")")
 	ft.set(st, k, nE)
 	res := ite(fits, app("mk-slice", app("sl-base", s), app("sl-off", s), newLen, app("sl-cap", s)), app("mk-slice", r, "0", newLen, cp))
-	return ft.nameTerm("app", "Slice", res)
+	rn := ft.nameTerm("app", "Slice", res)
+	// consequences of the two variants above, stated through at! so that quantified facts about the
+	// old slice carry over to the result without unfolding heaps: the old elements keep their
+	// places and the appended ones follow (implied by the definitions; given as trigger-friendly hints)
+	ft.assume("true", forall([][2]string{{"i", "Int"}}, "(! "+implies(and(app("<=", "0", "i"), app("<", "i", app("sl-len", s))), eq(app(at, nE, rn, "i"), app(at, E, s, "i")))+" :pattern (("+at+" "+nE+" "+rn+" i)))"))
+	if constLen >= 0 {
+		for j := 0; j < constLen; j++ {
+			ft.assume("true", eq(app(at, nE, rn, app("+", app("sl-len", s), num(int64(j)))), app(at, E, t, num(int64(j)))))
+		}
+	} else {
+		ft.assume("true", forall([][2]string{{"i", "Int"}}, "(! "+implies(and(app("<=", app("sl-len", s), "i"), app("<", "i", newLen)), eq(app(at, nE, rn, "i"), app(at, E, t, app("-", "i", app("sl-len", s)))))+" :pattern (("+at+" "+nE+" "+rn+" i)))"))
+	}
+	return rn
 }
 
 func (ft *FT) nameTerm(prefix string, s Sort, t Term) Term {
